@@ -1012,21 +1012,24 @@ Proof. intros H. unfold stmt_expr. simsB. Qed.
 Lemma assign_op_notNL t op : assign_op t = Some op -> isNL t = false.
 Proof. destruct t as [| | | | | |k|]; try discriminate. destruct k; try discriminate; reflexivity. Qed.
 
-Lemma stmt_assignmentB c c' : A c c' -> prelB (VR de_s) (stmt_assignment T c) (stmt_assignment T c').
-Proof.
-  intros H. unfold stmt_assignment. apply (bindB (VR de_a)); [apply assignable_pB; exact H|xr_introB].
-  rewrite (A_token _ _ HR).
-  match goal with |- context [assign_op (token ?x)] => destruct (assign_op (token x)) eqn:Eo end; [|simsB].
-  pose proof (assign_op_notNL _ _ Eo) as NT. simsB.
-Qed.
-
 Lemma stmt_assign_or_exprB c c' : A c c' -> prelB (VR de_s) (stmt_assign_or_expr T c) (stmt_assign_or_expr T c').
 Proof.
-  intros H. unfold stmt_assign_or_expr. apply (ptryB (VR de_a)); [apply assignable_pB; exact H| |].
+  intros H. unfold stmt_assign_or_expr. pose proof (taB _ _ H) as TA.
+  apply (ptryB (VR de_a)); [apply assignable_pB; exact H| |].
   - xr_introB. rewrite (A_token _ _ HR).
-    match goal with |- context [assign_op ?t] => destruct (assign_op t) end;
-      [apply stmt_assignmentB|apply stmt_exprB]; exact H.
-  - intros. apply stmt_exprB. exact H.
+    match goal with |- context [assign_op (token ?x)] => destruct (assign_op (token x)) eqn:Eo end.
+    + pose proof (assign_op_notNL _ _ Eo) as NT. simsB.
+    + destruct (type_assignable c) as [[b0 cb]|ce es| |], (type_assignable c') as [[b0' cb']|ce' es'| |];
+        try contradiction; try (apply pb_ret; exact I).
+      * destruct TA as [_ TA]. cbn [snd] in TA. rewrite (A_is_k KLeftBrace _ _ TA).
+        destruct (is_k KLeftBrace cb); [apply stmt_exprB; exact H|unfold expression_after; simsB].
+      * unfold expression_after. simsB.
+  - intros cx es cx' es'. rewrite (A_token _ _ H).
+    destruct (token c); try (apply stmt_exprB; exact H).
+    destruct (type_assignable c) as [[b0 cb]|ce es0| |], (type_assignable c') as [[b0' cb']|ce' es0'| |];
+      try contradiction; try (apply pb_ret; exact I).
+    + destruct TA as [_ TA]. cbn [snd] in TA. rewrite (A_is_k KLeftBrace _ _ TA).
+      destruct (is_k KLeftBrace cb); [apply stmt_exprB; exact H|apply pb_reraise].
 Qed.
 
 Lemma stmt_fromB c c' : A c c' -> token c = TK KFrom -> prelB (VR de_s) (stmt_from c) (stmt_from c').
